@@ -19,6 +19,9 @@ def run_case(case, part):
 
     N = case["N"]
     lls = profile(N, case["rot"])
+    if case.get("ll_letters"):
+        # explicit profile, incl. 'u' = finite but hopeless (acceptance ratio underflows to 0)
+        lls = [drv.LL_ALPHABET[c] - 0.001 * i for i, c in enumerate(case["ll_letters"])]
     if case.get("flat"):
         # large-size probe: a nearly flat profile (distinct values, every acceptance ratio far from 0)
         lls = [-1e-4 * ((i + case["rot"]) % N) for i in range(N)]
@@ -154,6 +157,14 @@ def build_cases(quick):
         inm.append(dict(kind="c06", sampler="rejection", N=N, rot=5, acc="all", flat=True, path="inmem", opts=dict(return_logprobs=True, n_linear_samples=1)))
         fil.append(dict(kind="c06", sampler="iterative", N=N, rot=5, acc="all", flat=True, path="file", perm="rotate7", may_raise=True,
                         opts=dict(return_logprobs=True, n_requested_samples=N - 10, init_batch_size=600, n_linear_samples=1, growth_factor=2, randomize_prior_order=True)))
+    # hopeless-but-finite rows between the good ones, several iterations without growth
+    for letters in ("u0h", "uu0", "u0uh", "0uhu", "uu0h"):
+        N_ = len(letters)
+        for path in ("inmem", "obj", "file"):
+            for nreq, gf in ((2, 1), (1, 1), (2, 2)):
+                (inm if path == "inmem" else fil).append(
+                    dict(kind="c06", sampler="iterative", N=N_, rot=0, acc=["r" if c == "u" else "a" for c in letters], ll_letters=letters, path=path, may_raise=True,
+                         opts=dict(return_logprobs=True, n_requested_samples=nreq, init_batch_size=None if gf == 1 else 1, growth_factor=gf, n_linear_samples=1)))
     # a library stored in single precision, larger than any plausible block size and not a multiple of a power of two
     for N, path in ((20011, "inmem"), (20011, "obj"), (3001, "inmem")):
         (inm if path == "inmem" else fil).append(dict(kind="c06", sampler="rejection", N=N, rot=5, acc="all", flat=True, path=path, dtype="float32",
